@@ -336,6 +336,14 @@ def stepLine (st : State) (w : List String) : State × String :=
         (r2.ok, applyRadix radix (r2.cfg.write Generated.FLOAT_BUF_SIZE))
       (st, s!"{b2s rd.ok} {hex out} {b2s r2.1} {b2s (r2.2 == out)} {b2s (l2.thread == l.thread)} {b2s (l2.globalRadix == l.globalRadix)} {l.effective} {l2.effective}")
     | _, _, _ => (st, "bad-op")
+  | ["allocdouble", _, k, n] =>
+    -- two failures in one process: each of them reaches the handler (C13_kth applies to each run)
+    match k.toNat?, n.toNat? with
+    | some k, some n =>
+      (match runAllocs (List.replicate n Act.alloc) (some k) 0 with
+       | .fatal _ => (st, "handler handler")
+       | .normal _ => (st, "MISSING"))
+    | _, _ => (st, "bad-op")
   | ["alloccase", _, k, n] =>
     -- C13: the k-th of n allocation requests (all through checked wrappers) fails
     match k.toInt?, n.toNat? with
@@ -346,7 +354,8 @@ def stepLine (st : State) (w : List String) : State × String :=
         | .fatal _ => (st, "handler")
         | .normal _ => (st, "normal-same")
     | _, _ => (st, "bad-op")
-  | ["thrcase", _, _, _] => (st, "ok")     -- C14_serial: every thread's transcript equals its serial transcript
+  | ["thrcase", _, _, _] => (st, "ok")
+  | ["thrcase", _, _, _, _] => (st, "ok")     -- C14_serial: every thread's transcript equals its serial transcript
   | ["lex", text] =>
     -- the token stream of yylex on a string (same format as the harness)
     match unhex text with
